@@ -306,11 +306,13 @@ func runCaseRecover(m *Monitor, ctx *CaseCtx) (res CaseResult) {
 		clearCaseHooks()
 		caseTrace = false
 		caseShareName = false
+		caseOneGen = false
 	}()
 	// a fixed subset of the cases (19 is coprime with the worker stride) runs
 	// with trace logging switched on in every world it makes
 	caseTrace = ctx.Idx%19 == 6
 	caseShareName = ctx.Idx%23 == 9
+	caseOneGen = ctx.Idx%7 == 2
 	return m.Run(ctx)
 }
 
